@@ -134,7 +134,7 @@ pub fn profile(prop: &str) -> Profile {
         },
         "C15" => Profile {
             prop: "C15",
-            w: [50, 6, 4, 4, 4, 1, 2, 1, 1, 1, 1, 0, 0, 0, 22, 2, 0, 0],
+            w: [50, 6, 4, 4, 4, 1, 2, 1, 1, 1, 1, 0, 0, 0, 22, 2, 2, 0],
             size_w: [5, 30, 35, 20, 10],
             blocker_pct: 80,
             ..base
@@ -262,6 +262,13 @@ impl Gen {
             dvals.push(long_value('q', 300, "zz"));
             dvals.push(long_value('q', 184, "\0\0")); // longer than 182 bytes, NUL tail
             dvals.push(long_value('q', 260, "y"));
+            if rng.chance(1, 2) {
+                // around the longest identifier whose deletion marker key the engine still takes
+                // (35 + 476 = 511 bytes), and well beyond it
+                dvals.push(long_value('q', 476, "k"));
+                dvals.push(long_value('q', 477, "k"));
+                dvals.push(long_value('q', 700, "k"));
+            }
             dvals.push("dé".into());
             dvals.push("a:b".into());
             dvals.push("a".into());
@@ -1282,9 +1289,46 @@ fn bulk_trace(prop: &str, seed: u64) -> Trace {
     }
 }
 
+/// One long life of a store without any restart: 60-200 stores of small events whose encoded
+/// sizes are mostly not multiples of 8 (so that alignment padding accumulates), a few removals,
+/// everything observed after every step. State kept beside the map for the life of the store
+/// object (cached ends, lengths, addresses) only drifts in such a history.
+fn long_session_trace(prop: &str, seed: u64) -> Trace {
+    let mut p = profile(prop);
+    p.size_w = [5, 95, 0, 0, 0];
+    let mut g = Gen::new(seed, p);
+    let n = g.rng.range(60, 200) as usize;
+    let mut ops: Vec<Op> = vec![Op::Clock(Some(g.clock))];
+    let mut stored: Vec<B32> = vec![];
+    for _ in 0..n {
+        let e = g.new_event();
+        g.apply_store_to_gen_model(&e);
+        stored.push(e.id);
+        ops.push(Op::Store(e));
+        if g.rng.chance(1, 15) {
+            let id = *g.rng.pick(&stored);
+            let _ = g.model.apply_remove(&id);
+            ops.push(Op::Remove(id));
+        }
+        if prop == "C15" && g.rng.chance(1, 8) {
+            ops.push(Op::TakeRef(*g.rng.pick(&stored)));
+        }
+    }
+    Trace {
+        cfg: Cfg { prop: prop.to_string(), mode: Mode::Seq, seed, blocker: false, extra_tables: 0, obs_level: 0, drain: false },
+        ops,
+        threads: vec![],
+        schedule: vec![],
+        expect: None,
+    }
+}
+
 pub fn generate(prop: &str, seed: u64) -> Trace {
     if matches!(prop, "C18" | "C05" | "C17") && seed % 64 == 0 {
         return bulk_trace(prop, seed);
+    }
+    if matches!(prop, "C04" | "C15") && seed % 32 == 1 {
+        return long_session_trace(prop, seed);
     }
     let mut p = profile(prop);
     if thorough() {
